@@ -27,15 +27,24 @@ Authors == { AuthorT(<<5000>>, "float"),                     \* not 1 on the fir
              AuthorT(<<10000, 3333, 6667, 1>>, "float"),     \* not monotone; smallest positive credit
              AuthorT(<<9999, 9999, 1250>>, "float"),
              AuthorT(<<2500, 10000, 625, 5905>>, "float") }  \* 6.25 % and 59.05 % are rounding ties of the note
+\* author-defined callables whose values lie on and next to the boundaries of the 4-decimal rounding (1e-9 units):
+\* just below 1 (rounds to 1: nothing may change, no note), just below that (rounds to 0.9999), exact ties, 1 - 1e-9,
+\* exactly 1.0 as float / numpy scalar, pairs that round to the same credit from both sides, just above 0
+Fines == { Author9(<<999990000, 999949000, 999950000, 999960000, 999999999, 1000000000>>, "float"),
+           Author9(<<1000000000, 999999999, 999950001, 999949999>>, "numpy"),
+           Author9(<<1000000000>>, "float"),
+           Author9(<<333349999, 333250001, 333300000, 500049000, 499951000>>, "float"),
+           Author9(<<123450000, 50000, 49999, 50001, 1, 0>>, "float") }
 SchedSeeds == LinearGrid \cup GeomGrid \cup {Reciprocal}
 ApplySeeds == (IF Quick THEN LinearSub \cup {Geometric(a) : a \in {0, 50, 75, 100}} ELSE LinearGrid \cup GeomGrid)
-              \cup {Reciprocal} \cup Authors \cup {Off}
+              \cup {Reciprocal} \cup Authors \cup Fines \cup {Off}
 
 \* ---- attempts (cfg files cannot hold negative numbers)
 AttemptsQuick == {-3, -1, 0} \cup 1..8 \cup {12, 33, 60}
 AttemptsLinear == {-3, -1, 0} \cup 1..13 \cup {60, 200}                  \* after + steps <= 12
 AttemptsThorough == {-7, -3, -2, -1, 0} \cup 1..30 \cup {32, 33, 59, 60, 61, 100, 160, 199, 200}
-AttemptsFor(s) == IF Quick THEN AttemptsQuick ELSE IF s.k = "linear" THEN AttemptsLinear ELSE AttemptsThorough
+AttemptsFor(s) == IF s.k = "authorfine" THEN {-1, 0} \cup 1..Len(s.vals9)
+                  ELSE IF Quick THEN AttemptsQuick ELSE IF s.k = "linear" THEN AttemptsLinear ELSE AttemptsThorough
 
 \* ---- base results
 E(g, m) == [g |-> g, m |-> m]
@@ -52,7 +61,7 @@ Seeds == IF Part = "sched" THEN {[kind |-> "seed", s |-> s, flag |-> FALSE] : s 
 Init == c \in Seeds /\ out = [seed |-> TRUE]
 
 ApplyOut(x) == LET cv == Value(x.s, Eff(x.n)) IN
-               [c |-> cv, cCands |-> Cands(x.s, Eff(x.n)),          \* cCands: both neighbours at a rounding tie of the formula
+               [c |-> cv, v9 |-> Raw9(x.s, Eff(x.n)), cCands |-> Cands(x.s, Eff(x.n)),          \* cCands: both neighbours at a rounding tie of the formula
                 res |-> Canonical(x.fb.base, cv, x.n, x.flag), notePs |-> {10 * p : p \in RoundCands(cv, 10)}]
 NextSched == /\ c' \in [kind : {"sched"}, s : {c.s}, n : 1..MaxN]
              /\ out' = [v |-> Value(c'.s, c'.n), cands |-> Cands(c'.s, c'.n), nextCands |-> Cands(c'.s, c'.n + 1)]
@@ -93,15 +102,23 @@ LawReciprocalNearest == IsSched /\ c.s.k = "reciprocal" => \A v \in out.cands : 
 
 \* ================================================================= laws, part "apply"
 Base == c.fb.base
+VOut == [lo |-> out.v9, hi |-> out.v9]
+\* a value the procedure rounds to full credit leaves everything alone, whatever the raw value was
+LawRoundsToOneIsIdentity == IsApply /\ out.v9 >= 999950001 => out.res = Unchanged(Base)
+\* values that round to the same credit give the same result
+LawSameRoundingSameResult == IsApply /\ c.s.k = "authorfine" =>
+                                out.res = Canonical(Base, RoundHalfEven(out.v9, Fine), c.n, c.flag)
 \* the documented result is accepted by the property-level judge, for every admissible rounding of the percentage
 LawCanonicalAccepted == IsApply => \A p \in out.notePs :
-                           Judge(Base, out.c, c.n, c.flag, [out.res EXCEPT !.noteP = IF out.res.notes = 1 THEN p ELSE 0]) = "ok"
+                           Judge(Base, VOut, c.n, c.flag, [out.res EXCEPT !.noteP = IF out.res.notes = 1 THEN p ELSE 0]) = "ok"
 \* the judge is not vacuous: every single-field corruption of the documented result is rejected
 Corruptions(r, x) ==
     LET e1 == r.entries[1] IN
     { [r EXCEPT !.entries[1].ok = IF e1.ok = "partial" THEN "true" ELSE "partial"],
-      [r EXCEPT !.entries[1].g8 = e1.g8 + 1],
+      [r EXCEPT !.entries[1].g8 = e1.g8 + 2],                 \* + 1 can be the other neighbour of a rounding tie
       [r EXCEPT !.entries[1].exact = FALSE],
+      [r EXCEPT !.entries[1].lt = ~e1.lt],
+      [r EXCEPT !.entries[1].is1 = ~e1.is1],
       [r EXCEPT !.entries[1].kept = FALSE],
       [r EXCEPT !.entries = Tail(r.entries)],
       [r EXCEPT !.raised = "ZeroDivisionError"],
@@ -110,7 +127,7 @@ Corruptions(r, x) ==
       IF r.notes = 1 THEN [r EXCEPT !.noteN = Eff(x.n) + 1] ELSE [r EXCEPT !.raised = "x"],
       IF r.notes = 1 THEN [r EXCEPT !.noteP = r.noteP + 20] ELSE [r EXCEPT !.raised = "x"],
       IF r.notes = 1 THEN [r EXCEPT !.notePexact = FALSE] ELSE [r EXCEPT !.raised = "x"] }
-LawJudgeSensitive == IsApply => \A bad \in Corruptions(out.res, c) : Judge(Base, out.c, c.n, c.flag, bad) # "ok"
+LawJudgeSensitive == IsApply => \A bad \in Corruptions(out.res, c) : Judge(Base, VOut, c.n, c.flag, bad) # "ok"
 LawMissingSensitive == c.kind = "missing" => JudgeMissing("none") # "ok" /\ JudgeMissing("TypeError") # "ok"
 LawPercentInCands == IsApply /\ out.res.notes = 1 => out.res.noteP \in out.notePs
 LawWellFormed == IsApply => \A i \in DOMAIN Base :
